@@ -18,13 +18,14 @@ import vlib
 F_TIME = "D_C19_TimeNanosAsSeconds"
 F_CONC = "D_C19_ConcurrentSend"
 F_NOOP = "D_C19_EventForNoopSave"
-DEV_OF = {F_TIME: "TimeNanosAsSeconds", F_CONC: "ConcurrentSend", F_NOOP: "NoopEvent"}
+F_DEL = "D_C19_DeleteEventUnordered"
+DEV_OF = {F_TIME: "TimeNanosAsSeconds", F_CONC: "ConcurrentSend", F_NOOP: "NoopEvent", F_DEL: "DeleteUnguarded"}
 
 
-def mc_cfg(dev, maxops, subs=("s1", "s2"), inv="InvSendsSerial InvOnlyChanges InvEvents InvTime InvDelivered"):
+def mc_cfg(dev, maxops, subs=("s1", "s2"), inv="InvSendsSerial InvOnlyChanges InvEvents InvTime InvDelivered", keys="{1, 2}"):
     return """SPECIFICATION MCSpec
 CONSTANTS
-  Keys = {1, 2}
+  Keys = %s
   Writers = {"w1", "w2"}
   Subs = {%s}
   Dev = {%s}
@@ -33,7 +34,7 @@ CONSTANTS
   OpNames = {"set", "del", "read"}
 INVARIANTS %s
 CHECK_DEADLOCK FALSE
-""" % (", ".join('"%s"' % s for s in subs), ", ".join('"%s"' % d for d in dev), maxops, inv)
+""" % (keys, ", ".join('"%s"' % s for s in subs), ", ".join('"%s"' % d for d in dev), maxops, inv)
 
 
 # ----------------------------------------------------------------------------------------------- scripts
@@ -206,8 +207,11 @@ def run(ctx):
         if not r.ok:
             raise vlib.Inconclusive("strict Events design (one subscriber, 3 operations) fails: %s %s" % (r.violated, r.error))
         ctx.extra["mc_strict_1sub"] = r.summary()
-    for dev, inv in (("NoopEvent", "InvOnlyChanges"), ("ConcurrentSend", "InvSendsSerial"), ("TimeNanosAsSeconds", "InvTime")):
-        r = ctx.tlc("MC_Events", cfg_text=mc_cfg([dev], 2), name="mc-asbuilt-" + dev, workers=4, timeout=3000, count_states=False)
+    for dev, inv in (("NoopEvent", "InvOnlyChanges"), ("ConcurrentSend", "InvSendsSerial"), ("TimeNanosAsSeconds", "InvTime"),
+                     ("DeleteUnguarded", "InvEvents")):
+        # the delete/re-create race needs an existing record, a delete and a set: 3 requests on one key
+        cfg = mc_cfg([dev], 3, subs=("s1",), keys="{1}") if dev == "DeleteUnguarded" else mc_cfg([dev], 2)
+        r = ctx.tlc("MC_Events", cfg_text=cfg, name="mc-asbuilt-" + dev, workers=4, timeout=3000, count_states=False)
         if r.ok or r.violated != inv:
             raise vlib.Inconclusive("as-built Events (%s) should violate %s, got %s %s" % (dev, inv, r.violated, r.error))
         ctx.extra["mc_asbuilt_" + dev] = r.violated
@@ -275,13 +279,11 @@ def run(ctx):
         return p, origin
 
     # 4. a failing history must be explained exactly by a (smallest) set of named deviations
-    devs = [f for f in (F_TIME, F_NOOP, F_CONC) if ctx.is_known(f)]
+    devs = [f for f in (F_TIME, F_NOOP, F_CONC, F_DEL) if ctx.is_known(f)]
     explained, stuck = {}, dict(failed)
     rest = set(failed)
-    # every event trips the time deviation while it is open, so sets that contain it are tried first
+    # smallest sets first, so that a history is attributed only to the deviations it really needs
     combos = [c for n in range(1, len(devs) + 1) for c in itertools.combinations(devs, n)]
-    if F_TIME in devs:
-        combos = [c for c in combos if F_TIME in c] + [c for c in combos if F_TIME not in c]
     for ci, combo in enumerate(combos):
         if not rest:
             break
